@@ -5,15 +5,18 @@
 
   * `process_normal_command` — the route of every command sent directly and of every command executed by
     EXEC (`process_command_parts`) — appends `serialize(Array(parts))` to the file iff
-    `is_write_command(name)`, BEFORE dispatching and without looking at the outcome (`Code.aofAppend`);
-  * nothing else appends: the pop performed by `wake_client` for a blocked client being served, and SELECT
-    (not in the table) leave no trace; a script is logged as its whole `EVAL …` command (EVAL is in the table),
-    the `redis.call`s inside it are not logged separately;
+    `is_write_command(name)`, BEFORE dispatching and without looking at the outcome; since
+    `fix: the AOF carried no database …` through `append_command_in_db(db, parts)`, which writes a `SELECT db` entry
+    first whenever the previous entry ran in another database (`Code.appendInDb`, `Code.fileStep`);
+  * the pop made for a BLPOP/BRPOP client (at once, or by `wake_client` when it is served) is appended by
+    `log_blocking_pop` as `LPOP key` / `RPOP key`; SELECT itself is not in the table; a script is logged as its
+    whole `EVAL …` command (EVAL is in the table), the `redis.call`s inside it are not logged separately;
   * start-up replay (`AofEngine::load`/`replay_command`) executes nothing, so "replay" is: read the file with an
     independent reader and send its commands, in file order, to an empty server on a fresh connection (db 0).
 
-  `log cfg h` is ONE function parameterised by `Cfg`: `Cfg.code w` (table `w`, no SELECT tracking, wake-ups not
-  logged) is what the code does; `Cfg.fixed w` is what the property prescribes.
+  `log cfg h` is ONE function parameterised by `Cfg`: `Cfg.tree w sel wake` follows the switches the translator
+  regenerates from the source (`Cfg.code w` = no SELECT tracking, pops not logged: the tree as it was pinned);
+  `Cfg.fixed w` is what the property prescribes.
 
   Scope of the model: the 65 commands of `KS.stepDb`, SELECT, and the script path through the one wrapper script
   `return redis.call(unpack(ARGV))` (whose effect is the inner command on the selected database).
@@ -160,8 +163,12 @@ structure Cfg where
   /-- a `SELECT n` is emitted before an entry whenever the entry's database is not the one a reader of the log has
       selected at that point (what Redis does; the code never does) -/
   logSelect : Bool
-  /-- the pop served to a blocked client is appended as `LPOP key` / `RPOP key` (the code does not) -/
+  /-- the pop made for a BLPOP/BRPOP client is appended as `LPOP key` / `RPOP key` -/
   logWake : Bool
+  /-- a write whose text does not replay to the same outcome is appended, once its outcome is known, by its effect:
+      `SPOP key [count]` that took `m…` as `SREM key m…` (nothing if it took nothing), `XADD key * f v…` that was
+      assigned `id` as `XADD key id f v…` (nothing if refused) — instead of verbatim before the dispatch -/
+  byEffect : Bool := false
   deriving Repr, DecidableEq
 
 /-- the code as it is, with write table `w` (= `Gen.writeCommands`) -/
@@ -169,8 +176,10 @@ def Cfg.code (w : List String) : Cfg := { writes := w, logSelect := false, logWa
 /-- the tree as the translator sees it: write table, "is a SELECT emitted on a database change?", "does the pop made
     for a blocking client get logged?" (`Cfg.tree w false false = Cfg.code w`) -/
 def Cfg.tree (w : List String) (sel wake : Bool) : Cfg := { writes := w, logSelect := sel, logWake := wake }
+/-- … plus "are random / clock outcomes logged by their effect?" -/
+def Cfg.treeE (w : List String) (sel wake eff : Bool) : Cfg := { writes := w, logSelect := sel, logWake := wake, byEffect := eff }
 /-- what the property prescribes, with write table `w` -/
-def Cfg.fixed (w : List String) : Cfg := { writes := w, logSelect := true, logWake := true }
+def Cfg.fixed (w : List String) : Cfg := { writes := w, logSelect := true, logWake := true, byEffect := true }
 
 def isWrite (w : List String) (name : String) : Bool := w.contains name
 
@@ -187,16 +196,32 @@ def selFor (cfg : Cfg) (st : LogSt) (d : Nat) : List (List Bytes) :=
 
 def fileAfter (cfg : Cfg) (st : LogSt) (d : Nat) : Nat := if cfg.logSelect then d else st.file
 
+/-- The entry written for a command of the table (`obs` = what it drew: the members a SPOP took, the id an `XADD *` was
+    assigned; `none`/empty = nothing, e.g. refused).  Verbatim — before the dispatch, whatever the outcome will be —
+    unless `eff` and the command is one of the two logged by their effect. -/
+def entryOf (eff : Bool) (raw : List Bytes) (obs : Option (List Bytes)) : Option (List Bytes) :=
+  if eff ∧ nameOf raw = "SPOP" then
+    match raw, obs with
+    | _ :: key :: _, some (m :: ms) => some ([83, 82, 69, 77] :: key :: m :: ms)
+    | _, _ => none
+  else if eff ∧ nameOf raw = "XADD" ∧ raw[2]? = some [42] then
+    match raw, obs with
+    | n :: key :: _ :: rest, some [id] => some (n :: key :: id :: rest)
+    | _, _ => none
+  else some raw
+
 /-- entries appended by one event, and the tracking state afterwards -/
 def logEv (cfg : Cfg) (st : LogSt) : Ev → List (List Bytes) × LogSt
-  | .cmd _ _ _ raw =>
+  | .cmd _ _ obs raw =>
     let name := nameOf raw
     let conn' := if name = "SELECT" then selTarget st.conn raw else st.conn
     if isWrite cfg.writes name then
-      -- appended verbatim, before dispatch, whatever the outcome will be
-      let file1 := fileAfter cfg st st.conn
-      (selFor cfg st st.conn ++ [raw],
-       { conn := conn', file := if name = "SELECT" then selTarget file1 raw else file1 })
+      match entryOf cfg.byEffect raw obs with
+      | some e =>
+        let file1 := fileAfter cfg st st.conn
+        (selFor cfg st st.conn ++ [e],
+         { conn := conn', file := if name = "SELECT" then selTarget file1 raw else file1 })
+      | none => ([], { st with conn := conn' })
     else ([], { st with conn := conn' })
   | .wake db _ left key =>
     if cfg.logWake then (selFor cfg st db ++ [popCmd left key], { st with file := fileAfter cfg st db })
@@ -211,15 +236,38 @@ def log (cfg : Cfg) (h : List Ev) : List (List Bytes) := logFrom cfg {} h
 
 namespace Code
 
-/-- `process_normal_command`, the block before the dispatch: `if is_write_command(name) { aof.append_command(parts) }` -/
-def aofAppend (w : List String) (file : Bytes) (raw : List Bytes) : Bytes :=
-  if isWrite w (nameOf raw) then file ++ serCmd raw else file
+/-- `AofEngine::append_command_in_db(db, command)` (`sel = true`: a `SELECT db` entry first whenever the previous entry
+    ran in another database; `last` is the engine's `last_db`) / plain `append_command(command)` (`sel = false`) -/
+def appendInDb (sel : Bool) (last : Nat) (file : Bytes) (db : Nat) (cmd : List Bytes) : Bytes × Nat :=
+  if sel ∧ last ≠ db then (file ++ (serCmd (selectCmd db) ++ serCmd cmd), db)
+  else (file ++ serCmd cmd, if sel then db else last)
 
-/-- the bytes of the file after a history: only events that pass through `process_normal_command` append -/
-def fileAfter (w : List String) (file : Bytes) : List Ev → Bytes
-  | [] => file
-  | .cmd _ _ _ raw :: h => fileAfter w (aofAppend w file raw) h
-  | .wake _ _ _ _ :: h => fileAfter w file h
+/-- the file, the connection's `db_index`, the engine's `last_db` -/
+structure FileSt where
+  file : Bytes := []
+  conn : Nat := 0
+  last : Nat := 0
+  deriving Repr, DecidableEq
+
+/-- What one event appends.  `process_normal_command`, the block before the dispatch:
+    `if is_write_command(name) { aof.append_command_in_db(db, parts) }` — whatever the outcome will be;
+    `log_blocking_pop` (`wake = true`): the pop made for a BLPOP/BRPOP client, as `LPOP key` / `RPOP key`. -/
+def fileStep (w : List String) (sel wake eff : Bool) (s : FileSt) : Ev → FileSt
+  | .cmd _ _ obs raw =>
+    let conn' := if nameOf raw = "SELECT" then selTarget s.conn raw else s.conn
+    if isWrite w (nameOf raw) then
+      -- `is_logged_by_effect` / `effect_entry`: SPOP and `XADD *` are appended after the dispatch, from the reply
+      match entryOf eff raw obs with
+      | some e => { file := (appendInDb sel s.last s.file s.conn e).1, conn := conn', last := (appendInDb sel s.last s.file s.conn e).2 }
+      | none => { s with conn := conn' }
+    else { s with conn := conn' }
+  | .wake db _ left key =>
+    if wake then
+      { s with file := (appendInDb sel s.last s.file db (popCmd left key)).1, last := (appendInDb sel s.last s.file db (popCmd left key)).2 }
+    else s
+
+/-- the state of the file after a history -/
+def fileAfter (w : List String) (sel wake eff : Bool) (s : FileSt) (h : List Ev) : FileSt := h.foldl (fileStep w sel wake eff) s
 
 end Code
 
@@ -273,9 +321,12 @@ def outsideReads : List String :=
    "PUBLISH", "SUBSCRIBE", "UNSUBSCRIBE", "PSUBSCRIBE", "PUNSUBSCRIBE", "MONITOR", "REPLCONF",
    "MULTI", "EXEC", "DISCARD", "WATCH", "UNWATCH"]
 
-/-- Mutating commands that the current table does not contain (known finding; `[]` after the proposed fix). -/
-def notLogged : List String := ["GETSET", "PEXPIRE", "HMSET"]
-def notLoggedOutside : List String := ["BLPOP", "BRPOP", "XREADGROUP"]
+/-- Mutating commands of the key-space machine that the table does not contain: none (GETSET, PEXPIRE, HMSET were
+    missing until `fix: is_write_command lacked …`). -/
+def notLogged : List String := []
+/-- Mutating commands outside the machine that are not in the table BY DESIGN: a BLPOP/BRPOP may block, so it cannot be
+    replayed verbatim; the pop it performs is logged by its effect, as `LPOP key` / `RPOP key` (`Ev.wake`, `Cfg.logWake`). -/
+def notLoggedOutside : List String := ["BLPOP", "BRPOP"]
 
 /-- for every name of `writeNames`: a database and arguments on which the command changes the database -/
 def mutWitness : List (String × Db × List Bytes) :=
